@@ -562,7 +562,7 @@ def run(ctx):
     return {
         "evaluations": nval,
         "distinct_nontrivial": total,
-        "rule": "every (format, type/formula/code) of the gas-phase tables reached through its own line format (own encoder -> naunet parser) and the API x (alpha,beta,gamma) in A^3; each reaction is evaluated by g++-compiled EvalRates on a 36-point physical grid; distinct = distinct (format,type,a,b,c)",
+        "rule": f"every (format, type/formula/code) of the gas-phase tables reached through its own line format (own encoder -> naunet parser) and the API x (alpha,beta,gamma) in A^3; each reaction is evaluated by g++-compiled EvalRates on a {len(GRID)}-point physical grid (3 K to 5e4 K); distinct = distinct (format,type,a,b,c)",
         "samples": [{"format": t[0], "code": t[1], "law": t[2]} for t in TYPES[:6]],
         "alphabet": A,
         "types": len(TYPES),
